@@ -62,14 +62,23 @@ def encodeRune (enc : List Nat) (r : Nat) : Bytes :=
 def percentEncode (enc : List Nat) (s : Bytes) : Bytes :=
   if lengthAfterEncoding enc s = s.length then s else (runes s).flatMap (encodeRune enc)
 
+/-- `percentDecodeChar(s[i:i+3])` at the head of the string -/
+def decodeAt (dec : List Nat) : Bytes → Option Nat
+  | 37 :: a :: b :: _ =>
+    if isHex a && isHex b && dec.contains (unhex a * 16 + unhex b) then some (unhex a * 16 + unhex b) else none
+  | _ => none
+
+/-- the loop of `percentDecodeString`; `skip` = bytes still to be skipped after a decoded triple (`i += 2`) -/
+def percentDecodeAux (dec : List Nat) : Nat → Bytes → Bytes
+  | _, [] => []
+  | skip + 1, _ :: rest => percentDecodeAux dec skip rest
+  | 0, c :: rest =>
+    match decodeAt dec (c :: rest) with
+    | some v => v :: percentDecodeAux dec 2 rest
+    | none => c :: percentDecodeAux dec 0 rest
+
 /-- `percentDecodeString`: decodes `%HH` only when the decoded byte is in the `percentDecodeChar` set -/
-def percentDecode (dec : List Nat) : Bytes → Bytes
-  | [] => []
-  | 37 :: tl@(a :: b :: rest) =>
-    if isHex a && isHex b && dec.contains (unhex a * 16 + unhex b) then
-      (unhex a * 16 + unhex b) :: percentDecode dec rest
-    else 37 :: percentDecode dec tl
-  | c :: rest => c :: percentDecode dec rest
+def percentDecode (dec : List Nat) (s : Bytes) : Bytes := percentDecodeAux dec 0 s
 
 /-! ### did.ParseDID (go-did v0.15 `didURLPattern`) -/
 
